@@ -27,6 +27,9 @@ type c08Scenario struct {
 	CertReq bool   `json:"certreq"` // server requests a client certificate
 	Policy  int    `json:"policy"`  // the server's ClientAuthType when CertReq (0 = RequireAndVerifyClientCert)
 	Packed  bool   `json:"packed"`  // consecutive handshake messages of the peer share one record
+	// SkipVerify: the client under test does not verify certificates (InsecureSkipVerify); the legal
+	// message orders are the same
+	SkipVerify bool `json:"skipverify,omitempty"`
 }
 
 type c08Case struct {
@@ -116,6 +119,9 @@ func c08Prepare(sc c08Scenario) (*c08World, string) {
 	w := &c08World{}
 	ccfg := &Config{Time: vfTime, RootCAs: p.A.pool, ServerName: vfServerName, CipherSuites: []uint16{sc.Suite}, Certificates: []Certificate{p.CliSig, p.CliEnc}}
 	scfg := &Config{Time: vfTime, Certificates: []Certificate{p.SrvSig, p.SrvEnc}, CipherSuites: []uint16{sc.Suite}, ClientCAs: p.A.pool}
+	if sc.Client && sc.SkipVerify {
+		ccfg.InsecureSkipVerify = true
+	}
 	if sc.CertReq {
 		scfg.ClientAuth = RequireAndVerifyClientCert
 		if sc.Policy != 0 {
@@ -515,6 +521,9 @@ func c08Scenarios() []c08Scenario {
 				for _, packed := range []bool{false, true} {
 					if client {
 						out = append(out, c08Scenario{Client: true, Suite: s, Resumed: resumed, Packed: packed})
+						if !resumed {
+							out = append(out, c08Scenario{Client: true, Suite: s, Packed: packed, SkipVerify: true})
+						}
 						continue
 					}
 					out = append(out, c08Scenario{Suite: s, Resumed: resumed, CertReq: vfIsECDHE(s), Packed: packed})
@@ -532,7 +541,7 @@ func c08Scenarios() []c08Scenario {
 }
 
 func TestVF_C08(t *testing.T) {
-	rec := vfRec("C08", "C08-orders", "prefix-closed enumeration of symbol sequences (own-role and foreign handshake message kinds, ChangeCipherSpec, warning alert, application data; handshake messages one per record or packed into one record) sent by a scripted peer with consistent transcript/keys, extended only while the endpoint under test is still waiting; roles client/server x ECC/ECDHE x full/resumed x certificate requested or not; at most two warning alerts per sequence plus the 16/17 boundary; oracle: complete / waiting / error exactly as the standard's message-order language says; non-trivial = sequence is not the legal flow; distinct = (scenario, sequence)")
+	rec := vfRec("C08", "C08-orders", "prefix-closed enumeration of symbol sequences (own-role and foreign handshake message kinds, ChangeCipherSpec, warning alert, application data; handshake messages one per record or packed into one record) sent by a scripted peer with consistent transcript/keys, extended only while the endpoint under test is still waiting; roles client/server x ECC/ECDHE x full/resumed x certificate requested or not x (client) verifying or not; at most two warning alerts per sequence plus the 16/17 boundary; oracle: complete / waiting / error exactly as the standard's message-order language says; non-trivial = sequence is not the legal flow; distinct = (scenario, sequence)")
 	scs := c08Scenarios()
 	idx := 0
 	total := 0
